@@ -13,6 +13,7 @@ import (
 	"os"
 	"regexp"
 	"sort"
+	"strings"
 	"sync"
 	"sync/atomic"
 	"time"
@@ -81,6 +82,7 @@ var (
 	waiting  = map[int]chan struct{}{}
 	gateBase []int // first gate id of node i; roots follow
 	tokRx    = regexp.MustCompile(`E\d+`)
+	pctMark  = " 100%z|%s"
 )
 
 type tagKey struct{}
@@ -151,7 +153,13 @@ func classify(v interface{}) (string, int, []string) {
 	if err, ok := v.(error); ok {
 		code = mg.ExitStatus(err)
 	}
-	toks := tokRx.FindAllString(fmt.Sprint(v), -1)
+	text := fmt.Sprint(v)
+	toks := tokRx.FindAllString(text, -1)
+	if strings.Count(text, pctMark) != len(toks) || strings.Contains(text, "MISSING") || strings.Contains(text, "%!") {
+		// every failing leaf writes its token followed by one marker containing a per cent sign; a
+		// message that went through a format string on its way up no longer carries them verbatim
+		toks = append(toks, "E999999")
+	}
 	sort.Strings(toks)
 	return "", code, toks
 }
@@ -258,19 +266,19 @@ func body(kind, slot int, ctx context.Context, args []interface{}) error {
 		if kind == 0 || kind == 2 || kind == 4 || kind == 7 {
 			panic("harness: kind without error result cannot return an error")
 		}
-		return errors.New("failed " + tok)
+		return errors.New("failed " + tok + pctMark)
 	case "fatal":
 		logEv(event{E: "be", K: n, R: "err", Code: nd.Result.Code, Toks: []string{tok}})
-		return mg.Fatal(nd.Result.Code, "fatal "+tok)
+		return mg.Fatal(nd.Result.Code, "fatal "+tok+pctMark)
 	case "panicerr":
 		logEv(event{E: "be", K: n, R: "panic", Code: 1, Toks: []string{tok}})
-		panic(errors.New("panicked " + tok))
+		panic(errors.New("panicked " + tok + pctMark))
 	case "panicfatal":
 		logEv(event{E: "be", K: n, R: "panic", Code: nd.Result.Code, Toks: []string{tok}})
-		panic(mg.Fatal(nd.Result.Code, "panicked fatally "+tok))
+		panic(mg.Fatal(nd.Result.Code, "panicked fatally "+tok+pctMark))
 	case "panicval":
 		logEv(event{E: "be", K: n, R: "panic", Code: 1, Toks: []string{tok}})
-		panic("panicked with a string " + tok)
+		panic("panicked with a string " + tok + pctMark)
 	}
 	panic("harness: bad result spec")
 }
